@@ -726,3 +726,41 @@ Proof.
   exists g. unfold outcome in Ho. cbn in Ho. inversion Ho; subst o.
   cbn [ms step]. rewrite G, Hp. cbn [is_ok]. eexists. cbn [gs]. split; [apply setg_same; exact G|]. cbn [gp]. auto.
 Qed.
+
+(* ------------------------------------------------------------------ clause 11: a cancelled caller let run from gate 1 returns *)
+(* the section, then Await with a cancelled context: whatever the select picks, the caller has returned *)
+Lemma sect_await_cancelled s a ch x : nth_error (cs s) a = Some x -> cp x = CGate -> cc x = true ->
+  exists x', nth_error (cs (await (step s (Sect a)) a ch)) a = Some x' /\ is_cret (cp x') = true.
+Proof.
+  intros G Ep Ec. rewrite (sect_gate _ _ _ G Ep).
+  set (s1 := match prom s with Some p => _ | None => _ end).
+  assert (G1 : exists p, nth_error (cs s1) a = Some {| cp := CAwait p; cc := true |}).
+  { subst s1. destruct (prom s); cbn [cs]; eexists; rewrite <- Ec; apply setc_same; exact G. }
+  destruct G1 as [p G1]. clearbody s1.
+  unfold await. rewrite G1. cbn [cp cc]. destruct (done_res s1 p) as [r|] eqn:ED.
+  - cbn [andb]. destruct (N.eqb ch 1).
+    + cbn [step]. rewrite G1. cbn [cp cc cs]. rewrite (setc_same _ _ _ _ G1). eexists. split; reflexivity.
+    + cbn [step]. rewrite G1. cbn [cp]. rewrite ED. cbn [cs cc]. rewrite (setc_same _ _ _ _ G1).
+      eexists. split; [reflexivity|]. destruct r; reflexivity.
+  - cbn [step]. rewrite G1. cbn [cp cc cs]. rewrite (setc_same _ _ _ _ G1). eexists. split; reflexivity.
+Qed.
+
+Lemma hdec_cancelled_ret h i ch h' a : hdec h [3; i; ch]%N h' ->
+  nth_error (hmap h) (N.to_nat i) = Some (HC a) -> ctx_cancelled (ms h) a = true ->
+  exists x', nth_error (cs (ms h')) a = Some x' /\ is_cret (cp x') = true.
+Proof.
+  intros D Hm Hc.
+  inversion D as [|i0 ch0 a0 x0 Hm0 G Ep|i0 ch0 g y Hm0 G Hp|i0 ch0 g y r Hm0 G Hp| |]; subst; rewrite Hm in Hm0; try discriminate.
+  inversion Hm0; subst a0. cbn [ms]. unfold ctx_cancelled in Hc. rewrite G in Hc.
+  eapply sect_await_cancelled; eauto.
+Qed.
+
+(* in the model, after [3 i ch] on a caller whose context is cancelled, that caller is not parked at gate 1 *)
+Lemma hstep_cancelled_not_gate h i ch h' o a : hstep h [3; i; ch]%N = Some (h', o) ->
+  nth_error (hmap h) (N.to_nat i) = Some (HC a) -> ctx_cancelled (ms h) a = true ->
+  fst (codep (ms h') (HC a)) <> 1%N.
+Proof.
+  intros Hst Hm Hc. apply hstep_hdec in Hst as [D _].
+  destruct (hdec_cancelled_ret _ _ _ _ _ D Hm Hc) as (x' & Gx & Hr). cbn [codep]. rewrite Gx.
+  unfold ccode. destruct (cp x') as [| |r src]; try discriminate. destruct r; discriminate.
+Qed.
